@@ -1,5 +1,5 @@
 /-
-  C18 (growth) — curved paths and two geometric statements.
+  C18 (growth) — curved paths and a geometric statement.
 
   * `hit_test_curved_is_flattened`  the hit test of a path WITH curves
                                 (`Model/Algo/WindingCurves.lean`: bounding-range early-out, then
@@ -8,10 +8,7 @@
                                 (`Conservative`: every flattened point of a curve lies inside the
                                 curve's `fast_bounding_range_y`);
   * `winding_horizontal_const`  two points of one row with no edge crossing point between them
-                                have the same winding number;
-  * `triangle_winding_iff_inside`  for a non-degenerate triangle (closed 3-point sub-path) and `q`
-                                off its outline: winding ≠ 0 ⇔ `q` strictly inside, and the value
-                                is −1 / +1 according to the orientation.
+                                have the same winding number.
 -/
 import LyonVerif.Props.C18
 import LyonVerif.Model.Algo.WindingCurves
@@ -94,8 +91,8 @@ variable [Transc K] [FlatConst K]
 /-- `fast_bounding_range_y` of an event (for a `Line`, its own ordinate range — never consulted) -/
 noncomputable def segRangeY (cur : P K) : CSeg K → K × K
   | .line t => (min cur.y t.y, max cur.y t.y)
-  | .quad c t => (⟨cur, c, t⟩ : Quad K).fastBoundingRangeY
-  | .cubic c1 c2 t => (⟨cur, c1, c2, t⟩ : Cubic K).fastBoundingRangeY
+  | .quad c t => quadFastRangeY (⟨cur, c, t⟩ : Quad K)
+  | .cubic c1 c2 t => cubicFastRangeY (⟨cur, c1, c2, t⟩ : Cubic K)
 
 /-- the early-out of one event is conservative: every end point of its flattening lies in the
 event's `fast_bounding_range_y` (true in exact arithmetic whenever the flattening parameters stay
@@ -143,7 +140,7 @@ theorem segEdges_contrib (q : P K) (tol : K) (cur : P K) (s : CSeg K) (hc : Cons
   cases s with
   | line t => exact ⟨lf, hf, rfl⟩
   | quad c t =>
-    by_cases hs : skipRange q (⟨cur, c, t⟩ : Quad K).fastBoundingRangeY = true
+    by_cases hs : skipRange q (quadFastRangeY (⟨cur, c, t⟩ : Quad K)) = true
     · refine ⟨[], by simp [segEdges, hs], ?_⟩
       have := contrib_zero_of_outside q _ _ ((skipRange_iff q _).mp hs) lf (hc lf hf)
       rw [this]; rfl
@@ -151,7 +148,7 @@ theorem segEdges_contrib (q : P K) (tol : K) (cur : P K) (s : CSeg K) (hc : Cons
       simp only [segEdges, hs]
       exact hf
   | cubic c1 c2 t =>
-    by_cases hs : skipRange q (⟨cur, c1, c2, t⟩ : Cubic K).fastBoundingRangeY = true
+    by_cases hs : skipRange q (cubicFastRangeY (⟨cur, c1, c2, t⟩ : Cubic K)) = true
     · refine ⟨[], by simp [segEdges, hs], ?_⟩
       have := contrib_zero_of_outside q _ _ ((skipRange_iff q _).mp hs) lf (hc lf hf)
       rw [this]; rfl
